@@ -25,6 +25,23 @@ PROP = {
         "files": ["brontide/c11_test.go"],
         "shards": {"quick": 8, "thorough": 16},
         "fatal_is_violation": True,
-        "floors": {"quick": {"messages": 1}, "thorough": {"messages": 1}},
+        "floors": {"quick": {"messages": 140000, "ciphertext_reference_evals": 140000, "stream_identity_evals": 140000,
+                             "delivery_evals": 140000, "nonce_reuse_evals": 280000, "tamper_evals": 14000,
+                             "handshakes_completed": 150, "handshake_corruption_evals": 5000,
+                             "handshake_wrong_key_evals": 300, "rotations": 250, "short_writes": 400000,
+                             },
+                   "thorough": {"messages": 20000000, "ciphertext_reference_evals": 20000000,
+                                "stream_identity_evals": 20000000, "delivery_evals": 20000000,
+                                "nonce_reuse_evals": 40000000, "tamper_evals": 2000000,
+                                "handshakes_completed": 22000, "handshake_corruption_evals": 2500000,
+                                "handshake_wrong_key_evals": 45000, "rotations": 40000, "short_writes": 60000000}},
+    }, {
+        "name": "transport_race", "pkg": "brontide", "test": "TestVerifC11Race",
+        "files": ["brontide/c11_test.go"],
+        "tiers": ["thorough"],
+        "race": {"quick": True, "thorough": True},
+        "shards": {"quick": 8, "thorough": 16},
+        "fatal_is_violation": True,
+        "floors": {"thorough": {"messages": 300000, "handshakes_completed": 400}},
     }],
 }
